@@ -96,8 +96,31 @@ theorem scale_out_history (h : Hashing) (W : SyncIn) (r : Int) (hF : Final h W)
   rw [hview, ho] at hp
   exact hp.trans (List.Perm.append_right _ hbefore.symm)
 
+/-- **scale-in at slot `k` with `replicas` unchanged, the whole history**: the pod at `k` is moved — afterwards the occupied
+    ordinals are those before without `k`, plus one new ordinal above all of them -/
+theorem slot_move_history (h : Hashing) (W : SyncIn) (r k : Int) (hF : Final h W)
+    (hr : W.view.replicas = some r) (h1 : 1 ≤ r) (hk : k ∈ desired r W.view.slots)
+    (hw : wfWorld h (applyEdits [.slots (some (k :: W.view.slots))] W) = true)
+    (hx : extraMB h (applyEdits [.slots (some (k :: W.view.slots))] W) = true) :
+    ∃ n ≤ roundBound (applyEdits [.slots (some (k :: W.view.slots))] W),
+      Final h (roundsN h n (applyEdits [.slots (some (k :: W.view.slots))] W)) ∧
+      ∃ o, 0 ≤ o ∧ o ∉ k :: W.view.slots ∧ (∀ p ∈ ((ownPods W).map (·.pod.ord)).erase k, p < o) ∧
+        ((ownPods (roundsN h n (applyEdits [.slots (some (k :: W.view.slots))] W))).map (·.pod.ord)).Perm
+          (((ownPods W).map (·.pod.ord)).erase k ++ [o]) := by
+  obtain ⟨n, hn, hf, hp⟩ := edits_converge_to_desired h _ W hw hx
+  have hbefore := final_ords hF
+  have hrW : replicasOf W.view = r := by simp [replicasOf, hr]
+  rw [hrW] at hbefore
+  have hview : desired (replicasOf (applyEdits [.slots (some (k :: W.view.slots))] W).view)
+      (applyEdits [.slots (some (k :: W.view.slots))] W).view.slots = desired r (k :: W.view.slots) := by
+    simp [applyEdits, applyEdit, replicasOf, hr]
+  obtain ⟨o, ho, ho0, hoS, hlt⟩ := desired_cons_same r W.view.slots k h1 hk
+  refine ⟨n, hn, hf, o, ho0, hoS, fun p hp' => hlt p ((hbefore.erase k).mem_iff.1 hp'), ?_⟩
+  rw [hview, ho] at hp
+  exact hp.trans (List.Perm.append_right _ (hbefore.erase k).symm)
+
 /-- **plain scale-in by one, the whole history**: afterwards the occupied ordinals are those before without the top one -/
-theorem scale_in_history (h : Hashing) (W : SyncIn) (r : Int) (hF : Final h W)
+theorem scale_in_history (h : Hashing) (W : SyncIn) (r : Int)
     (hr : W.view.replicas = some (r + 1)) (h0 : 0 ≤ r)
     (hw : wfWorld h (applyEdits [.replicas r] W) = true) (hx : extraMB h (applyEdits [.replicas r] W) = true) :
     ∃ n ≤ roundBound (applyEdits [.replicas r] W), Final h (roundsN h n (applyEdits [.replicas r] W)) ∧
